@@ -213,7 +213,28 @@ def r3_fresh_and_units(c, facts):
     c16.run_units(c, facts, rule_prefix='C17.U', scope=sc, must=sc[:3], floors=False)
 
 
+def r4_refs_unfiltered(c, facts):
+    """the references handler returns every location find_references produced"""
+    R = c.rule('C17.R4', 'REFS-WHOLE: the references handler returns the uses found, none dropped afterwards')
+    rf = c.anchor(R, 'oal_client::lsp::handlers::references')
+    drops = []
+    for f2 in [rf] + facts.closures_of(rf):
+        for b, t in f2.calls():
+            cal = callee_of(t)
+            if not cal or not t['args']:
+                continue
+            nm = P.strip(cal['def']).split('::')[-1]
+            ty = t['args'][0].get('ty', '')
+            if 'Vec<lsp_types::Location>' in ty and nm in ('retain', 'retain_mut', 'dedup', 'dedup_by', 'dedup_by_key', 'truncate', 'remove', 'swap_remove', 'drain', 'pop', 'clear', 'split_off'):
+                drops.append(nm)
+    if drops:
+        c.bad(R, 'references:result-filtered:%s' % ','.join(sorted(set(drops))), 'the references handler removes entries from its result (%s): a use bound to the declaration is not returned although go-to-definition on it leads back to the declaration' % sorted(set(drops)))
+    else:
+        c.ok(R, {'references': 'the collected locations are returned as they are'})
+
+
 def run(c, facts):
+    c.run(r4_refs_unfiltered, facts)
     c.run(r3_fresh_and_units, facts)
     c.run(r1_def_ident, facts)
     c.run(r2_ident_loc, facts)
